@@ -49,7 +49,7 @@ def logical_call(ch: Choices, tok: str, allow_fail: bool = True, allow_notificat
                  positional_only: bool = False, zero_ok: bool = False, extra_codes: Tuple[int, ...] = (),
                  extra_messages: Tuple[str, ...] = (), exotic: bool = False, allow_single: bool = False) -> LogicalCall:
     weights = [4, 2, 1, 2, 3 if allow_fail else 0, 2 if allow_fail else 0, 1, 2, 2, 1, 2,
-               1 if allow_fail else 0, 1 if exotic else 0, 1 if allow_single else 0]
+               1 if allow_fail else 0, 1 if exotic else 0, 1 if allow_single else 0, 1]
     kind = ch.weighted(weights, 'call.kind')
     named = (not positional_only) and ch.flag(1, 3, 'call.named')
     notification = allow_notification and ch.flag(1, 4, 'call.notification')
@@ -92,6 +92,14 @@ def logical_call(ch: Choices, tok: str, allow_fail: bool = True, allow_notificat
     elif kind == 13:
         method, argmap = 'single', [('value', ch.choice([{'a': 1}, {'value': 2}, [1], 'v', 0, {}], 'arg.single'))]
         tok = None  # type: ignore[assignment]
+    elif kind == 14:
+        method, argmap = 'kwonly', [('tok', tok)]
+        if not positional_only and ch.flag(2, 3, 'call.kwonly_extras'):
+            named = True     # keyword-only parameters can be passed by name only
+            if ch.flag(1, 2, 'call.flag'):
+                argmap.append(('flag', bool(ch.draw(2, 'arg.flag'))))
+            if ch.flag(1, 2, 'call.level'):
+                argmap.append(('level', ch.choice([3, 0, 'hi'], 'arg.level')))
     elif kind == 10:
         method, argmap = 'vecho', [('tok', tok)]
         if ch.flag(2, 3, 'call.value'):
